@@ -227,7 +227,7 @@ func runC19Fanout(ctx *core.Ctx) {
 		}
 	}
 	// ---- seeded random schedules chosen by the harness (with blocked-step probes)
-	nr := ctx.Pick(1500, 30000)
+	nr := ctx.Pick(1000, 30000)
 	for i := 0; i < nr; i++ {
 		n := ctx.Rng.Intn(7)
 		res := make([]int, n)
